@@ -43,6 +43,9 @@ def predicate(op, il, mres, tag):
         if il.startswith("crash") or il.startswith("panic"):
             return ("Relic.Props.C12.load_dump", mres, "Load crashed: " + il[:80])
         return None
+    if "caller-buffer-changed" in il:
+        return ("Relic.Props.C12.add_spec", mres, "PatchSet.Add wrote through a slice its caller handed over (the blobs of the other patches "
+                "and the caller's buffer no longer hold the listed new content)")
     if f[1] != "apply":
         return None
     for flag in ("target-touched", "target-created", "leftover", "link-changed", "input-changed", "output-missing"):
